@@ -269,6 +269,7 @@ func C10(p *load.Prog, r *oblig.Run) {
 	c10Errors(p, r)
 	// the merged individual holds the facts of both originals only if MergeNodes accounts for every right child (C09's path rule)
 	c09Accounts(p, r)
+	c09KindOnlyEquals(p, r)
 	// a document merge runs the matching pipeline of IndividualNodes.Compare: a stage that never finishes, pairs the wrong
 	// lists or partitions the jobs wrongly loses or duplicates people in the merged document (C11's structural rules)
 	if cmpRoot := p.Method(load.PkgRoot, "IndividualNodes", "Compare"); cmpRoot != nil {
